@@ -109,6 +109,16 @@ def output_configure(I):
 
     I.specs[("fn", id(markupsafe.escape))] = escape_spec
 
+    def safe_repr_spec(I_, st, args, kwargs, node):
+        # compiler.has_safe_repr (contracts C01.emit.wellformed.W5 / C34.has_safe_repr.exact_types): here only
+        # "some boolean function of the constant"; False makes the real code raise Impossible (run-time child)
+        v = fresh("has_safe_repr", "bool")
+        st.trace.append(Event("call", "has_safe_repr", args, kwargs, v))
+        return [(st, v)]
+
+    I.specs[("fn", id(C.has_safe_repr))] = safe_repr_spec
+    I.specs["jinja2.compiler:has_safe_repr"] = safe_repr_spec
+
     def concat_spec(I_, st, args, kwargs, node):
         items = list(I_.iter_concrete(st, args[0], node))
         v = fresh("concat", "str", tags={"const_group"})
